@@ -34,7 +34,7 @@ ASSUMPTIONS = [
     "'identical' = equal sha256 of to_json() and bit-identical predictions on a fixed reporting set",
 ]
 
-CHECKED_PREFIX = ("fit:", "use:")
+CHECKED_PREFIX = ("fit:", "use:", "refit:")
 
 
 def run_history(hist, threads=None, env_over=None, cache_dir=None, timeout=1500):
@@ -63,7 +63,8 @@ def run_history(hist, threads=None, env_over=None, cache_dir=None, timeout=1500)
 def alphabet(tier):
     a = ["fit:daily:A", "fit:hourly:A", "fit:billing:A", "fit:daily:B", "fit:hourly:B", "use:hourly:A", "fit_unseeded:hourly",
          "settings:custom", "abuse:settings_lists", "np:seed0", "np:rand", "import:hourly_first",
-         "fit:hourly_late:A", "fit:hourly_seed0:A", "fit:daily_spiky:A", "fit_devalpha:daily"]
+         "fit:hourly_late:A", "fit:hourly_seed0:A", "fit:daily_spiky:A", "fit_devalpha:daily",
+         "refit:hourly:B", "refit:daily:B", "refit:billing:A", "refit:hourly_adaptive:B"]
     if tier == "thorough":
         a += ["fit:daily_legacy:A", "fit:hourly_solar:A", "use:daily:A", "np:seed1", "fit:caltrack:A"]
     return a
@@ -75,11 +76,12 @@ def run(tier, seed):
     workers = poolmod.n_workers()
     alpha = alphabet(tier)
     checked = [a for a in alpha if a.startswith(CHECKED_PREFIX)]
-    ref_ops = sorted(set(("fit:" + a.split(":", 1)[1] if a.startswith("use:") else a).replace("fit:hourly_late:", "fit:hourly:") for a in checked))
+    ref_ops = sorted(set(("fit:" + a.split(":", 1)[1] if a.startswith(("use:", "refit:")) else a).replace("fit:hourly_late:", "fit:hourly:")
+                         for a in checked))
     stats = {"processes": 0, "fits_compared": 0}
 
     def ref_of(op):
-        op = "fit:" + op.split(":", 1)[1] if op.startswith("use:") else op
+        op = "fit:" + op.split(":", 1)[1] if op.startswith(("use:", "refit:")) else op
         return op.replace("fit:hourly_late:", "fit:hourly:")  # built early, fitted late: same data, settings and seed
 
     # ---- references: each fit alone in a fresh process, twice
